@@ -52,7 +52,7 @@ theorem legal_of_sends (cfg : Cfg) (c : Call) (verb : FVerb) (ks : List Key.K) (
     rw [this] at hs; cases hs
 
 /-- the contract for a read on a map that stores nothing -/
-theorem spec_read_empty (cfg : Cfg) (s : St) (c : Call) (hr : isRead c = true) (he : s.items = [])
+theorem spec_read_empty (cfg : Cfg) (s : St) (c : Call) (hwf : WF cfg c) (hr : isRead c = true) (he : s.items = [])
     (hs : sends cfg c = true) : spec cfg s c = (settle s, .ok (missRes c)) := by
   cases c with
   | get k =>
@@ -87,12 +87,14 @@ theorem spec_read_empty (cfg : Cfg) (s : St) (c : Call) (hr : isRead c = true) (
     · obtain ⟨wire, cmd, hw, hc⟩ := legal_of_sends cfg _ .gets ks none _
         (fun ie so sc => by simp only [call, hks, if_false] <;> rfl) hs
       simp [spec, hks, fetchSpec_empty cfg s he _ _ _ wire cmd hw hc, missRes]
+  | stats args => exact absurd hwf (by simp [WF])              -- outside the map contract
+  | cacheMemlimit m => exact absurd hwf (by simp [WF])
   | _ => simp [isRead] at hr
 
 theorem onServer_read_empty (cfg : Cfg) (s : St) (c : Call) (hwf : WF cfg c) (hr : isRead c = true)
     (he : s.items = []) (hs : sends cfg c = true) :
     onServer cfg s c = (settle s, .ok (missRes c), true) := by
-  rw [refines_all cfg s c hwf, spec_read_empty cfg s c hr he hs]
+  rw [refines_all cfg s c hwf, spec_read_empty cfg s c hwf hr he hs]
   cases c <;> first | rfl | simp [isRead] at hr
 end Client
 
